@@ -177,6 +177,24 @@ func scripted(w http.ResponseWriter, r *http.Request) {
 		if c.Explicit || c.Status != 200 {
 			w.WriteHeader(c.Status)
 		}
+		if c.Writes == "reuse" || c.Writes == "reuse32k" {
+			// what io.Copy does: every piece travels in the same buffer
+			n := len(body)/3 + 1
+			if c.Writes == "reuse32k" {
+				n = 32 << 10
+			}
+			buf := make([]byte, n)
+			for off := 0; off < len(body); off += n {
+				k := copy(buf, body[off:])
+				w.Write(buf[:k])
+				if c.Flush {
+					if f, ok := w.(http.Flusher); ok {
+						f.Flush()
+					}
+				}
+			}
+			return
+		}
 		if c.Writes == "32k" {
 			// the way a proxy copy loop delivers a large body
 			for off := 0; off < len(body); off += 32 << 10 {
